@@ -1,5 +1,5 @@
 """C01 - applied writes survive crash and restart: the ordering / guard facts its mechanisms name."""
-from . import flushspec, c19, schemaspec
+from . import flushspec, c19, schemaspec, walspec
 from ._util import pick
 
 FILTERS = []
@@ -18,4 +18,6 @@ def obligations(ctx):
     out += pick(flushspec.index_load(ctx), [("B-4c", "stale-temp-removed")])
     out += pick(flushspec.wal_append(ctx), [("B-5", "wal-flush-each-write")])
     out += pick(schemaspec.define_paths(ctx), [("B-6", "async"), ("B-6b", "sync")])
+    out += pick(walspec.recovery(ctx), [("B-7", "replay"), ("B-7b", "order")])
+    out += pick(walspec.rotation(ctx), [("B-8", "rotate")])
     return out
